@@ -341,7 +341,10 @@ fn case_generic<F: Fl>(c: &Case, obs: &mut Obs) -> PResult {
                         ensure!(k0 == k1, "C16/scaling/geometric/kind", "{x:?} vs {y:?}");
                         let sc = pow2(e);
                         for (u, v) in [(a0, a1), (b0, b1)] {
-                            if u.is_finite() && u > 0.0 {
+                            // bounds in the subnormal range (or near overflow) have lost precision in exp
+                            let tiny = F::min_positive_value().to64() * 1024.0;
+                            let huge = F::max_value().to64() / 1024.0;
+                            if u > tiny && u < huge && v > tiny && v < huge {
                                 let rel = (v / sc / u - 1.0).abs();
                                 let tol = tl * 1.5 + 8.0 * F::U;
                                 ensure!(rel <= tol, format!("C16/scaling/geometric/{kn}"), "{}: geometric bound {u:e} scaled by 2^{e} should be {:e}, got {v:e} (relative diff {rel:e} > tol {tol:e})", F::NAME, u * sc);
